@@ -757,6 +757,21 @@ def tag_ctor(fn, t, val):
 def simplify_call(name, args, t=None):
     if is_transparent(name) and args:
         return args[0]
+    # Option / Result methods on a value this path has just built: the answer is known
+    if args and isinstance(args[0], tuple) and args[0][0] == "agg" and args[0][1].startswith(("core::option::Option::", "core::result::Result::")):
+        variant = args[0][1].rsplit("::", 1)[-1]
+        m = strip_generics(name).rsplit("::", 1)[-1]
+        if name.startswith(("core::option::Option", "core::result::Result")):
+            if m in ("is_some", "is_ok"):
+                return ("const", 1 if variant in ("Some", "Ok") else 0)
+            if m in ("is_none", "is_err"):
+                return ("const", 1 if variant in ("None", "Err") else 0)
+            if m in ("unwrap_or", "unwrap_or_default") and variant in ("Some", "Ok"):
+                return dict(args[0][2]).get("0", ("call", name, args))
+            if m == "unwrap_or" and variant in ("None", "Err") and len(args) > 1:
+                return args[1]
+            if m in ("unwrap", "expect") and variant in ("Some", "Ok"):
+                return dict(args[0][2]).get("0", ("call", name, args))
     return ("call", name, args)
 
 
@@ -1151,6 +1166,17 @@ class Sim:
                     b = tgt
                     continue
                 vs = self.variants_of(opv)
+                if vs and isinstance(opv[1], tuple) and opv[1][0] == "agg" and "::" in opv[1][1]:
+                    # the discriminant of a value this path has just built (`x = Some(..); match x { .. }`): one variant
+                    vname = opv[1][1].rsplit("::", 1)[-1]
+                    dv = [d for nm, d in vs if nm == vname]
+                    if dv:
+                        tgt = None
+                        for v, bb in targets:
+                            if v == dv[0] or (dv[0] < 0 and v in (dv[0] + (1 << 64), dv[0] + (1 << 8))):
+                                tgt = bb
+                        b = tgt if tgt is not None else t["otherwise"]
+                        continue
                 if vs:
                     # enum discriminant: refine the set of possible variants
                     possible = None
